@@ -604,6 +604,14 @@ func (e *bEngine) runPath(st *bState, work *[]*bState, atReturn func(st *bState,
 		fr := st.frames[len(st.frames)-1]
 		fn := fr.fn.(*ssa.Function)
 		blk := fn.Blocks[fr.block]
+		if fr.pc == 0 && e.uptoLoop && len(st.frames) == 1 && isLoopHeader(blk) {
+			// `upto firstloop`: a prefix contract.  The path ends where the first loop of the function
+			// under contract starts; the ensures clauses are checked on the state reached there
+			e.note("PREFIX contract (upto firstloop): the clauses describe the state in which the first loop of the function starts; the loop and what follows are not covered")
+			st.frames = st.frames[:0]
+			atReturn(st, nil)
+			return
+		}
 		if fr.pc == 0 && e.loopAbs && isLoopHeader(blk) && !pureScalarLoop(blk) && leafArrayLoop(blk) != nil {
 			// loopabs, second kind: a loop that only moves scalars in and out of slice elements
 			// (decode / encode loops) is skipped: the arrays it stores to and its loop-carried
@@ -918,6 +926,10 @@ func (e *bEngine) runPath(st *bState, work *[]*bState, atReturn func(st *bState,
 			st.frames = st.frames[:len(st.frames)-1]
 			st.calls = st.calls[:len(st.calls)-1]
 			if len(st.frames) == 0 {
+				if e.uptoLoop {
+					e.endPath("return before the first loop: not described by a prefix contract")
+					return
+				}
 				atReturn(st, res)
 				return
 			}
@@ -1425,6 +1437,13 @@ func (e *bEngine) verify(caseSpec string) {
 	e.nilable = len(con.Raw["nilable"]) > 0
 	e.nilsafe = len(con.Raw["nilsafe"]) > 0
 	e.callbackPure = strings.Join(con.Raw["callback"], " ")
+	e.uptoLoop = false
+	for _, u := range con.Raw["upto"] {
+		if strings.TrimSpace(u) != "firstloop" {
+			panic(verr("%s: upto expects: upto firstloop", con.File))
+		}
+		e.uptoLoop = true
+	}
 	e.allocMax = pow2(32)
 	for _, s := range con.Raw["safety"] {
 		// safety allocmax=<n>: the largest element count a single make may be asked for
